@@ -10,6 +10,7 @@ import (
 	"regexp"
 	"sort"
 	"strconv"
+	"strings"
 	"sync/atomic"
 	"syscall"
 	"time"
@@ -253,7 +254,7 @@ func scenarioStorm(o *common.Opts, idx int, st *stats, tag string) string {
 		}
 		st.restarts++
 		for _, nd := range c.Nodes {
-			if nd.ID != victim && nd.Srv.Exited() {
+			if nd.ID != victim && diedOnItsOwn(nd) {
 				report(witness{Kind: "node-exit", Detail: fmt.Sprintf("storm: node %d exited although only node %d was killed: %s\n%s", nd.ID, victim, nd.Srv.CrashLine(), tailN(c.NodeLog(nd.ID, 6000), 2000)), Sig: "node-exited|" + crashClass(nd.Srv.CrashLine()+c.NodeLog(nd.ID, 6000))})
 			}
 		}
@@ -354,6 +355,120 @@ func scenarioSlowDisk(o *common.Opts, idx int, st *stats) string {
 		return why + clusterDiag(c)
 	}
 	st.ops += int(w.done)
+	st.scenarios++
+	return ""
+}
+
+// scenarioMembership (C07): the configuration changes under client load. Even runs add a fourth node (RCONF add,
+// then the new process starts with JoinCluster and must catch up through the log), odd runs remove one of the three
+// founders (the removed process ends by design; the other two must stay up). A kill -9 + restart of a remaining
+// member follows. Everything acknowledged must be explained by one order and every member must hold the same keyspace.
+func scenarioMembership(o *common.Opts, idx int, st *stats) string {
+	dir := filepath.Join(o.Work, fmt.Sprintf("c07m-%d", idx))
+	add := (idx/10)%2 == 0
+	spare := 0
+	if add {
+		spare = 1
+	}
+	c, err := cluster.NewSpare(dir, 3, spare, false, nil)
+	if err != nil {
+		return err.Error()
+	}
+	defer c.Stop()
+	if !*fKeep {
+		defer os.RemoveAll(dir)
+	}
+	if err := c.StartAll(); err != nil {
+		return "start: " + err.Error()
+	}
+	founders := c.Nodes[:3]
+	for _, nd := range founders {
+		if !c.WaitWritable(nd.ID, 90*time.Second) {
+			return "cluster did not become writable"
+		}
+	}
+	r := rand.New(rand.NewSource(o.Seed*86028121 + int64(idx)))
+	w := newWorkload(c)
+	w.rate = 300
+	wg := w.run(2, o.Seed*7919+int64(idx))
+	time.Sleep(time.Duration(800+r.Intn(800)) * time.Millisecond)
+	via := 1 + r.Intn(3)
+	rconf := func(args ...string) bool {
+		cl, err := respc.Dial(c.Nodes[via-1].Addr(), 3*time.Second)
+		if err != nil {
+			return false
+		}
+		defer cl.Close()
+		cl.Timeout = 5 * time.Second
+		v, err := cl.Do(args...)
+		return err == nil && v.Kind == '+'
+	}
+	skip := map[int]bool{}
+	tag := "c07"
+	if add {
+		if !rconf("RCONF", "add", "4", c.JoinURL(4)) {
+			atomic.StoreInt32(&w.stop, 1)
+			wg.Wait()
+			return "cluster did not become writable"
+		}
+		st.kinds["member-add"]++
+		time.Sleep(time.Duration(r.Intn(600)) * time.Millisecond)
+		if err := c.StartNode(4); err != nil {
+			report(witness{Kind: "restart-failed", Detail: fmt.Sprintf("membership: the added node 4 does not start: %v", err), Sig: "node-does-not-restart|c07"})
+		}
+	} else {
+		victim := 1 + r.Intn(3)
+		if victim == via {
+			via = 1 + via%3
+		}
+		if !rconf("RCONF", "delete", strconv.Itoa(victim)) {
+			atomic.StoreInt32(&w.stop, 1)
+			wg.Wait()
+			return "cluster did not become writable"
+		}
+		st.kinds["member-remove"]++
+		skip[victim] = true
+	}
+	st.nemesis++
+	time.Sleep(time.Duration(1500+r.Intn(1000)) * time.Millisecond)
+	// nobody but a removed member may have ended
+	for _, nd := range c.Nodes {
+		if diedOnItsOwn(nd) && !skip[nd.ID] {
+			report(witness{Kind: "node-exit", Detail: fmt.Sprintf("membership change (%v) through node %d: node %d exited: %s\n%s", st.kinds, via, nd.ID, nd.Srv.CrashLine(), strings.Join(c.Grep(nd.ID, []string{"panic", "fatal", "runtime error"}, 400, 5), "\n")),
+				Sig: "node-exited|membership|" + crashClass(nd.Srv.CrashLine()+c.NodeLog(nd.ID, 6000))})
+		}
+	}
+	// a crash-restart of a remaining member on top
+	var rest []int
+	for _, nd := range c.Nodes {
+		if !skip[nd.ID] && nd.Srv != nil && !nd.Srv.Exited() {
+			rest = append(rest, nd.ID)
+		}
+	}
+	if len(rest) > 0 {
+		k := rest[r.Intn(len(rest))]
+		c.Kill(k)
+		time.Sleep(time.Duration(300+r.Intn(700)) * time.Millisecond)
+		if err := c.StartNode(k); err != nil {
+			report(witness{Kind: "restart-failed", Detail: fmt.Sprintf("membership: node %d does not restart after kill -9: %v", k, err), Sig: "node-does-not-restart|c07"})
+		}
+		st.restarts++
+		st.kinds["kill-restart"]++
+		st.nemesis++
+	}
+	time.Sleep(time.Duration(1500+r.Intn(1000)) * time.Millisecond)
+	atomic.StoreInt32(&w.stop, 1)
+	wg.Wait()
+	st.open += int(w.timeouts)
+	ok, why := quiesceOn(c, w.led, tag, 240*time.Second, skip)
+	checkElectionLog(c, st, tag)
+	if !ok && why == "cluster did not serve writes within the bound" {
+		if len(bySigSnapshot()) > 0 {
+			return ""
+		}
+		return why + clusterDiag(c)
+	}
+	checkLinearizable(w, st, tag)
 	st.scenarios++
 	return ""
 }
